@@ -70,3 +70,58 @@ func genLockProbes(uid int) []job {
 	}
 	return out
 }
+
+// ---- the lock of a synchronized instance: every operation on its slots waits while the lock is held, no operation
+//      on an unsynchronized instance does.  Enumerated: every operation x {clos, flavors} where it applies x
+//      {synchronized, not synchronized} ----
+type instOp struct {
+	Name  string // constructor of TableModel.iop
+	Form  string
+	Kinds []string // "clos", "flavor"
+	Undo  []string // evaluated after the warm-up evaluation
+}
+
+var instOps = []instOp{
+	{"ISlotValue", "(slot-value o 'v)", []string{"clos", "flavor"}, nil},
+	{"ISetfSlotValue", "(setf (slot-value o 'v) 3)", []string{"clos", "flavor"}, nil},
+	{"ISlotBoundp", "(slot-boundp o 'v)", []string{"clos"}, nil},
+	{"ISlotMakunbound", "(slot-makunbound o 'w)", []string{"clos"}, nil},
+	{"ISlotExistsp", "(slot-exists-p o 'v)", []string{"clos"}, nil},
+	{"IAccessorRead", "(c17i-v o)", []string{"clos"}, nil},
+	{"IReaderRead", "(c17i-rv o)", []string{"clos"}, nil},
+	{"IAccessorWrite", "(setf (c17i-v o) 4)", []string{"clos"}, nil},
+	{"IWriterWrite", "(c17i-wv o 5)", []string{"clos"}, nil},
+	{"IWithSlotsRead", "(with-slots (v) o v)", []string{"clos"}, nil},
+	{"IWithSlotsWrite", "(with-slots (v) o (setq v 6))", []string{"clos"}, nil},
+	{"ISendGet", "(send o :v)", []string{"flavor"}, nil},
+	{"ISendSet", "(send o :set-v 7)", []string{"flavor"}, nil},
+	{"IMethodReadsVar", "(send o :peek)", []string{"flavor"}, nil},
+	{"IMethodSetsVar", "(send o :poke 8)", []string{"flavor"}, nil},
+	// no slot is touched
+	{"ISynchronizedp", "(synchronizedp o)", []string{"clos", "flavor"}, nil},
+	{"IJustTheInstance", "o", []string{"clos", "flavor"}, nil},
+}
+
+type instProbe struct {
+	Job  job
+	Op   string
+	Kind string
+	Sync bool
+}
+
+func genInstProbes() []instProbe {
+	var out []instProbe
+	for _, op := range instOps {
+		for _, kind := range op.Kinds {
+			for _, sync := range []bool{true, false} {
+				cell := kind
+				if !sync {
+					cell += "-plain"
+				}
+				out = append(out, instProbe{Job: job{Kind: "instprobe", Cells: []string{cell}, Runs: []string{op.Form}, Finals: op.Undo, Procs: 4},
+					Op: op.Name, Kind: kind, Sync: sync})
+			}
+		}
+	}
+	return out
+}
